@@ -29,3 +29,66 @@ Theorem C12_readall_delivers_view : forall s acc loads,
   let '(bs, _, st) := drain_all s acc loads in bs = acc ++ fst (sview s) /\ st = snd (sview s).
 Proof. exact drain_all_view. Qed.
 Print Assumptions C12_readall_delivers_view.
+
+(* ---- sharded directories ---- *)
+From UV Require Import Hamt.Build Hamt.Read Hamt.ShardDecode Hamt.Refine Hamt.RefineTrace Hamt.RefineLength Base.Varint.
+From Coq Require Import Permutation.
+Local Open Scope N_scope.
+
+(* a lookup whose hash path crosses an unavailable shard returns that shard's load error (never not-found) and
+   requests nothing further; otherwise it returns the map's answer *)
+Theorem C12_sharded_lookup_reports_the_load_error : forall size lg, permitted size lg ->
+  forall H : bytes -> bytes, (forall k, wf_bytes (H k) = true) -> (forall k, length (H k) = 8%nat) ->
+  forall entries root sz,
+  Forall (entry_ok H) entries -> NoDup (map e_name entries) ->
+  build_sharded size HashMurmur3 entries = Ok (root, sz) ->
+  forall key, exists path : list blk,
+    (N.of_nat (length path) + 1) * lg <= 64 /\
+    forall fault,
+      Read.lookup fault root (H key) key =
+      match first_fault fault path with
+      | Some (e, tr) => (Err e, tr)
+      | None => (match find (fun e => bytes_eqb (e_name e) key) entries with Some e => Ok (e_target e) | None => Err ENotFound end, path)
+      end.
+Proof. exact sharded_lookup_requests. Qed.
+Print Assumptions C12_sharded_lookup_reports_the_load_error.
+
+(* iteration with unavailable shards: a finite list of events in which an entry is yielded — exactly once —
+   precisely when looking it up succeeds (no unavailable shard on its path), and nothing else is yielded *)
+Theorem C12_sharded_iteration_under_faults : forall size lg, permitted size lg ->
+  forall H : bytes -> bytes, (forall k, wf_bytes (H k) = true) -> (forall k, length (H k) = 8%nat) ->
+  forall entries root sz,
+  Forall (entry_ok H) entries -> NoDup (map e_name entries) ->
+  build_sharded size HashMurmur3 entries = Ok (root, sz) ->
+  forall fault,
+    let evs := map snd (iterate fault root) in
+    (forall e, In e entries -> (In (yield_of e) evs <-> fst (Read.lookup fault root (H (e_name e)) (e_name e)) = Ok (e_target e)))
+    /\ (forall k v, In (IYield k v) evs -> exists e, In e entries /\ e_name e = k /\ e_target e = v)
+    /\ NoDup (filter is_yield evs).
+Proof. exact sharded_iterate_under_faults. Qed.
+Print Assumptions C12_sharded_iteration_under_faults.
+
+(* one error event per unavailable shard met, the entries below it skipped: the events are a permutation of what
+   the builder's trie prescribes *)
+Theorem C12_sharded_iteration_events : forall size lg, permitted size lg ->
+  forall (H : bytes -> bytes) fault n cs pf,
+  n = BShard cs -> bok size H n -> (pf = None \/ pf = Some size) ->
+  Permutation (map snd (iter_blk fault (fst (serialize_node size HashMurmur3 (pad_len size) n)) pf (pad_len size))) (bevents size fault n).
+Proof. exact iterate_serialized_faults. Qed.
+Print Assumptions C12_sharded_iteration_events.
+
+(* length() (and the preloading reifier built on it) reports a count only if every shard could be loaded *)
+Theorem C12_sharded_length_needs_every_shard : forall size lg, permitted size lg ->
+  forall H : bytes -> bytes, (forall k, wf_bytes (H k) = true) -> (forall k, length (H k) = 8%nat) ->
+  forall entries root sz,
+  Forall (entry_ok H) entries -> NoDup (map e_name entries) ->
+  build_sharded size HashMurmur3 entries = Ok (root, sz) ->
+  exists shards : list blk,
+    Forall (fun x => exists sh, mk_shard_of x = Ok sh) shards /\
+    forall fault,
+      incl (snd (shard_length fault root)) shards
+      /\ (forall m, fst (shard_length fault root) = Ok m -> Forall (fun t => fault t = None) shards)
+      /\ (Forall (fun t => fault t = None) shards ->
+          fst (shard_length fault root) = Ok (N.of_nat (length entries)) /\ Permutation (snd (shard_length fault root)) shards).
+Proof. exact sharded_length_under_faults. Qed.
+Print Assumptions C12_sharded_length_needs_every_shard.
